@@ -200,6 +200,15 @@ def enum_ops(s, *, invalid=True):
             for r in range(len(sub) + 1):
                 for keep in itertools.combinations(sub, r):
                     yield {"op": "filter", "node": base, "keep": list(keep)}
+    # filter with the full verdict vocabulary: every node in turn answered K / X / S / Z, the others T or F
+    if nodes:
+        for base in holders[:3]:
+            sub = [x.uid for x in (nodes if base == ROOT else m.branch(s.mnode(base))[1:])]
+            for special in sub:
+                for v in "KXSZ":
+                    for other in "TF":
+                        yield {"op": "filterv", "node": base, "verdicts": {str(u): (v if u == special else other) for u in sub},
+                               "raise": (special + len(v)) % 2 == 0}
     # add a foreign tree
     if not typed:
         for p in holders:
